@@ -147,4 +147,205 @@ def find (store : Nat → Option Nat) (stored : Ranges) (cutoff : Nat) (prev : O
   | .ok (some res) => .ok res
   | .ok none => findSlow store stored cutoff
 
+/-! ## Part 2 (C35): the cached window edges, `get_next_prunable_batch`, the removal loop
+
+  * The store as the pruner sees it is `PStore`: the three `BlockRanges` tables, the header
+    time of every height of the chain and the CIDs of the sampling metadata.
+  * The `Daser` is an oracle `grant : Nat → Bool` (its answer to `WantToPrune(height)` during this
+    call); what the pruner sends to it is the returned message trace.
+  * `Cache.updated_at.elapsed() < update_after` (a wall-clock test) is the input `refresh`.
+  * `for height in ranges.rev()` (repeated `pop_head`) is the descending enumeration of the
+    heights, `for height in range` the ascending one.
+  * `MAX_PRUNABLE_BATCH_SIZE` is the parameter `limit` (instantiated with the regenerated
+    constant by the driver and by `Props/C35.lean`).
+-/
+
+/-- the pruner's view of `Store` -/
+structure PStore where
+  stored : Ranges := []
+  pruned : Ranges := []
+  sampled : Ranges := []
+  /-- header time of every height of the chain (meaningful for stored heights) -/
+  time : Nat → Nat := fun _ => 0
+  /-- `get_sampling_metadata(h).cids` (`[]` when no metadata is recorded) -/
+  cids : Nat → List Nat := fun _ => []
+
+/-- `store.get_by_height(h).time()` -/
+def PStore.lookup (s : PStore) (h : Nat) : Option Nat :=
+  if contains s.stored h then some (s.time h) else none
+
+/-- `Cache` without the memo table -/
+structure Cache where
+  afterPruning : Option Nat := none
+  afterSampling : Option Nat := none
+deriving DecidableEq, Repr
+
+/-- the mutable part of `Worker` -/
+structure Worker where
+  cache : Cache := {}
+  prevNum : Nat := 0
+deriving DecidableEq, Repr
+
+/-- what the pruner sends to the `Daser` -/
+inductive Msg where
+  | updateHighest (h : Nat)
+  | updateNum (n : Nat)
+  | wantToPrune (h : Nat) (answer : Bool)
+deriving DecidableEq, Repr
+
+/-- `<` on `Option<u64>` (`None < Some(_)`) -/
+def optLt : Option Nat → Option Nat → Bool
+  | none, some _ => true
+  | some a, some b => decide (a < b)
+  | _, none => false
+
+/-- `cache.after_X.and_then(|h| stored.right_of(h))` (only its panics matter: the result feeds
+    the memo-table garbage collection) -/
+def keepRight (stored : Ranges) : Option Nat → PRes Unit
+  | none => .ok ()
+  | some h =>
+    match liftR (rightOf stored h) with
+    | .ok _ => .ok ()
+    | .error e => .error e
+
+/-- `Worker::update_cached_data` -/
+def updateCachedData (s : PStore) (c : Cache) (sc pc : Nat) (refresh : Bool) :
+    PRes (Cache × List Msg) :=
+  if !refresh then .ok (c, [])
+  else
+    match find s.lookup s.stored sc c.afterSampling with
+    | .error e => .error e
+    | .ok aS =>
+      match find s.lookup s.stored pc c.afterPruning with
+      | .error e => .error e
+      | .ok aP =>
+        let c1 : Cache := if optLt c.afterSampling aS then { c with afterSampling := aS } else c
+        let (c2, msgs) : Cache × List Msg :=
+          if optLt c1.afterPruning aP then
+            ({ c1 with afterPruning := aP },
+              match aP with
+              | some h => [Msg.updateHighest h]
+              | none => [])
+          else (c1, [])
+        match keepRight s.stored c2.afterSampling with
+        | .error e => .error e
+        | .ok _ =>
+          match keepRight s.stored c2.afterPruning with
+          | .error e => .error e
+          | .ok _ => .ok (c2, msgs)
+
+/-- `edge.map(|h| BlockRanges::try_from(1..=h).expect("never fails")).unwrap_or_default()` -/
+def areaUpTo : Option Nat → PRes Ranges
+  | some h => liftR (expectOk (ofRange (1, h)))
+  | none => .ok []
+
+/-- the loop asking the `Daser` for everything beyond both windows (heights in descending order) -/
+def daserLoop (limit : Nat) (sampled : Ranges) (grant : Nat → Bool) :
+    List Nat → Ranges → List Msg → PRes (Ranges × List Msg)
+  | [], batch, tr => .ok (batch, tr)
+  | h :: rest, batch, tr =>
+    match liftR (len batch) with
+    | .error e => .error e
+    | .ok n =>
+      if n == limit then .ok (batch, tr)
+      else if contains sampled h then
+        match liftR (expectOk (insertRelaxed batch (h, h))) with
+        | .error e => .error e
+        | .ok b => daserLoop limit sampled grant rest b tr
+      else
+        let ans := grant h
+        let tr' := tr ++ [Msg.wantToPrune h ans]
+        if ans then
+          match liftR (expectOk (insertRelaxed batch (h, h))) with
+          | .error e => .error e
+          | .ok b => daserLoop limit sampled grant rest b tr'
+        else daserLoop limit sampled grant rest batch tr'
+
+/-- the `BlockRanges` algebra of `get_next_prunable_batch` after the cache update:
+    `(after_sampling_window, prunable_and_sampled)` -/
+def batchSets (s : PStore) (c : Cache) : PRes (Ranges × Ranges) := do
+  let nonSamplingArea ← areaUpTo c.afterSampling
+  let prunableArea ← areaUpTo c.afterPruning
+  let synced ← liftR (add s.pruned s.stored)
+  let edges ← liftR (edges synced)
+  let candidates ← liftR (bitAnd s.stored prunableArea)
+  let afterSW ← liftR (bitAnd candidates nonSamplingArea)
+  let t1 ← liftR (sub candidates afterSW)
+  let t2 ← liftR (sub t1 edges)
+  let prunableAndSampled ← liftR (bitAnd t2 s.sampled)
+  pure (afterSW, prunableAndSampled)
+
+/-- `Worker::get_next_prunable_batch`: the batch, the worker afterwards, the messages to the `Daser` -/
+def getNextPrunableBatch (limit : Nat) (s : PStore) (w : Worker) (sc pc : Nat) (refresh : Bool)
+    (grant : Nat → Bool) : PRes (Ranges × Worker × List Msg) := do
+  let (c, tr0) ← updateCachedData s w.cache sc pc refresh
+  let (afterSW, prunableAndSampled) ← batchSets s c
+  let n1 ← liftR (len afterSW)
+  let n2 ← liftR (len prunableAndSampled)
+  let num ← liftR (addU64 n1 n2)
+  let (prevNum, tr1) : Nat × List Msg :=
+    if w.prevNum != num then (num, [Msg.updateNum num]) else (w.prevNum, [])
+  let batch0 ← liftR (headn prunableAndSampled limit)
+  let (batch, tr2) ← daserLoop limit s.sampled grant (heights afterSW).reverse batch0 []
+  pure (batch, { cache := c, prevNum := prevNum }, tr0 ++ tr1 ++ tr2)
+
+/-- effects of the removal loop of `Worker::run` -/
+inductive Eff where
+  | bsRemove (cid : Nat)
+  | removeHeight (h : Nat)
+  | prunedEvent (fromH toH : Nat)
+deriving DecidableEq, Repr
+
+/-- `InMemoryStore::remove_height` as far as the pruner's view goes -/
+def PStore.removeHeight (s : PStore) (h : Nat) : PRes PStore :=
+  if !contains s.stored h then .error .storeNotFound
+  else do
+    let st ← liftR (expectOk (removeRelaxed s.stored (h, h)))
+    let sa ← liftR (expectOk (removeRelaxed s.sampled (h, h)))
+    let pr ← liftR (expectOk (insertRelaxed s.pruned (h, h)))
+    pure { s with stored := st, sampled := sa, pruned := pr,
+                  cids := fun x => if x = h then [] else s.cids x }
+
+/-- body of `for height in range`: metadata CIDs out of the blockstore, then the header -/
+def pruneHeight (s : PStore) (h : Nat) : PRes (PStore × List Eff) :=
+  -- `get_sampling_metadata(height)?`: NotFound when the header is not in the store
+  if !contains s.stored h then .error .storeNotFound
+  else
+    let cids := s.cids h
+    match s.removeHeight h with
+    | .error e => .error e
+    | .ok s' => .ok (s', cids.map Eff.bsRemove ++ [Eff.removeHeight h])
+
+def pruneHeights : PStore → List Nat → List Eff → PRes (PStore × List Eff)
+  | s, [], acc => .ok (s, acc)
+  | s, h :: rest, acc =>
+    match pruneHeight s h with
+    | .error e => .error e
+    | .ok (s', effs) => pruneHeights s' rest (acc ++ effs)
+
+/-- one range of the batch, then the `PrunedHeaders` event -/
+def pruneRange (s : PStore) (r : Range) : PRes (PStore × List Eff) :=
+  match pruneHeights s (List.range' r.1 (r.2 + 1 - r.1)) [] with
+  | .error e => .error e
+  | .ok (s', effs) =>
+    .ok (s', if r.1 ≤ r.2 then effs ++ [Eff.prunedEvent r.1 r.2] else effs)
+
+/-- `for range in prunable_batch.into_inner()` -/
+def pruneBatch : PStore → List Range → List Eff → PRes (PStore × List Eff)
+  | s, [], acc => .ok (s, acc)
+  | s, r :: rest, acc =>
+    match pruneRange s r with
+    | .error e => .error e
+    | .ok (s', effs) => pruneBatch s' rest (acc ++ effs)
+
+/-- one iteration of the `Worker::run` loop with an uncancelled token: compute the batch, remove it -/
+def runIteration (limit : Nat) (s : PStore) (w : Worker) (sc pc : Nat) (refresh : Bool)
+    (grant : Nat → Bool) : PRes (PStore × Worker × Ranges × List Msg × List Eff) :=
+  match getNextPrunableBatch limit s w sc pc refresh grant with
+  | .error e => .error e
+  | .ok (batch, w', msgs) =>
+    match pruneBatch s batch [] with
+    | .error e => .error e
+    | .ok (s', effs) => .ok (s', w', batch, msgs, effs)
+
 end Lumina.Model.Pruner
